@@ -59,7 +59,7 @@ def run(tier):
         reg.undecided(PID + "/executor/unsupported", "unsupported", "executor", str(e))
     # known findings: obligations listed in known_findings.json are taken out of the discharged count
     for ob in list(reg.obligations):
-        if not ob.discharged and ob.result != "unknown":
+        if not ob.discharged and ob.kind != "cover":
             e = R.kf.match(PID, ob.name)
             if e:
                 reg.obligations.remove(ob)
